@@ -74,7 +74,7 @@ def run(c):
         where = "|".join(tag.split("|")[1:3]) if "|" in tag else "none"
         mode = r["trace"].split("/")[0]
         kinds = "%s%s%s" % ("B" if e["n"] else "-", "H" if e["count"] else "-", "L" if e["k"] else "-")
-        sig = "%s|%s|orphans=%s|placements=%s" % (mode, where, kinds, places if mode != "fault" else "*")
+        sig = "%s|%s|orphans=%s|placements=%s" % (mode, where, kinds, places)
         classes[sig] += 1
         c.report(sig, "audit after %s: %d orphan blob(s), %d orphan registry slot(s), %d log file(s): %s" % (r["trace"], e["n"], e["count"], e["k"], e.get("note", "")[:300]),
                  dict(trace=r["trace"], header=h, audit=e))
